@@ -4,6 +4,7 @@ import (
 	"fmt"
 	"go/token"
 	"go/types"
+	"strconv"
 	"strings"
 
 	"golang.org/x/tools/go/ssa"
@@ -475,6 +476,9 @@ func (tr *trans) call(v ssa.Value, c *ssa.CallCommon, st State) {
 	if callee := c.StaticCallee(); callee != nil {
 		key := funcKey(callee)
 		if callee.Pkg != nil && callee.Pkg.Pkg.Path() == "sync/atomic" && tr.atomicCall(v, callee.Name(), c, st, pos) {
+			return
+		}
+		if callee.Pkg != nil && callee.Pkg.Pkg.Path() == "fmt" && (callee.Name() == "Sprintf" || callee.Name() == "Errorf") && tr.sprintfNative(v, callee.Name(), c, st) {
 			return
 		}
 		if callee.Pkg != nil && callee.Pkg.Pkg.Path() == "encoding/json" && callee.Name() == "Unmarshal" && tr.jsonUnmarshal(v, c, st) {
@@ -1134,4 +1138,168 @@ func (tr *trans) jsonUnmarshal(v ssa.Value, c *ssa.CallCommon, st State) bool {
 	tr.setResults(v, rs)
 	tr.note("json.Unmarshal writes only into its target object and freshly allocated memory; the decoded value is arbitrary (pointers may be nil)")
 	return true
+}
+
+// varargElems: the SSA values stored into a `new [k]T` varargs array passed as slice argument.
+func varargElems(a ssa.Value) ([]ssa.Value, bool) {
+	if c, ok := a.(*ssa.Const); ok && c.Value == nil {
+		return nil, true
+	}
+	n, al, ok := constLenOfVarargs(a)
+	if !ok {
+		return nil, false
+	}
+	elems := make([]ssa.Value, n)
+	refs := al.Referrers()
+	if refs == nil {
+		return nil, false
+	}
+	for _, r := range *refs {
+		ia, ok := r.(*ssa.IndexAddr)
+		if !ok {
+			continue
+		}
+		ic, ok := ia.Index.(*ssa.Const)
+		if !ok {
+			return nil, false
+		}
+		irefs := ia.Referrers()
+		if irefs == nil {
+			return nil, false
+		}
+		for _, s := range *irefs {
+			if st, ok := s.(*ssa.Store); ok && st.Addr == ia {
+				idx := ic.Int64()
+				if idx < 0 || idx >= n || elems[idx] != nil {
+					return nil, false
+				}
+				elems[idx] = st.Val
+			}
+		}
+	}
+	for _, e := range elems {
+		if e == nil {
+			return nil, false
+		}
+	}
+	return elems, true
+}
+
+// sprintfNative: fmt.Sprintf / fmt.Errorf with a constant format made of literal text and %s %d %v verbs
+// applied to strings and integers is a concatenation (integers rendered by the injective str.of.int).
+// Anything else falls back to the assumed contract (an uninterpreted pure function).
+func (tr *trans) sprintfNative(v ssa.Value, name string, c *ssa.CallCommon, st State) bool {
+	fc, ok := c.Args[0].(*ssa.Const)
+	if !ok || fc.Value == nil {
+		return false
+	}
+	format := constantString(fc)
+	elems, ok := varargElems(c.Args[1])
+	if !ok {
+		return false
+	}
+	var parts []Term
+	lit := ""
+	ai := 0
+	for i := 0; i < len(format); i++ {
+		if format[i] != '%' {
+			lit += string(format[i])
+			continue
+		}
+		if i+1 >= len(format) {
+			return false
+		}
+		verb := format[i+1]
+		i++
+		if verb == '%' {
+			lit += "%"
+			continue
+		}
+		if verb != 's' && verb != 'd' && verb != 'v' {
+			return false
+		}
+		if ai >= len(elems) {
+			return false
+		}
+		mi, ok := elems[ai].(*ssa.MakeInterface)
+		if !ok {
+			return false
+		}
+		ai++
+		xt := mi.X.Type()
+		b, isBasic := xt.Underlying().(*types.Basic)
+		if !isBasic {
+			return false
+		}
+		// named types with String()/Error() methods are formatted through them: only plain kinds here
+		if n, ok := xt.(*types.Named); ok && n.NumMethods() > 0 {
+			hasFmt := false
+			for m := 0; m < n.NumMethods(); m++ {
+				if mn := n.Method(m).Name(); mn == "String" || mn == "Error" || mn == "Format" || mn == "GoString" {
+					hasFmt = true
+				}
+			}
+			if hasFmt && !(b.Info()&types.IsString != 0 && verb == 's' && false) {
+				// e.g. entity.Id has String() returning the same string: accept when String() has a purefn contract saying so
+				if b.Info()&types.IsString == 0 {
+					return false
+				}
+				key := ""
+				if n.Obj().Pkg() != nil {
+					key = n.Obj().Pkg().Path() + "." + n.Obj().Name() + ".String"
+				}
+				if sc := tr.prog.CS.Funcs[key]; sc == nil || !sc.PureFn {
+					return false
+				}
+			}
+		}
+		if lit != "" {
+			parts = append(parts, tr.vc.strLit(lit))
+			lit = ""
+		}
+		switch {
+		case b.Info()&types.IsString != 0:
+			parts = append(parts, tr.val(mi.X))
+		case b.Info()&types.IsInteger != 0:
+			parts = append(parts, app("str.of.int", tr.val(mi.X)))
+		default:
+			return false
+		}
+	}
+	if ai != len(elems) {
+		return false
+	}
+	if lit != "" {
+		parts = append(parts, tr.vc.strLit(lit))
+	}
+	var t Term = "str.empty"
+	for i, p := range parts {
+		if i == 0 {
+			t = p
+		} else {
+			t = app("scat", t, p)
+		}
+	}
+	if name == "Errorf" {
+		// a fresh non-nil error whose message is the text
+		tr.ncall++
+		rs := tr.freshResults(fmt.Sprintf("call%d", tr.ncall), c.Signature(), st)
+		tr.vc.assume(not(eq("(itag "+rs[0]+")", "0")))
+		tr.setResults(v, rs)
+		return true
+	}
+	tr.setVal(v, t)
+	tr.note("fmt.Sprintf with %s/%d/%v on strings and integers is modelled as concatenation (integers through an injective decimal rendering)")
+	return true
+}
+
+func constantString(c *ssa.Const) string {
+	if c.Value == nil {
+		return ""
+	}
+	s := c.Value.ExactString()
+	if u, err := strconv.Unquote(s); err == nil {
+		return u
+	}
+	return s
 }
